@@ -630,6 +630,23 @@ def _place_suffix(pl):
 def mk_field(base, name, adt=None):
     """field projection with simplification over aggregates."""
     b = base
+    if b.op == "phi" and b.args and all(isinstance(x, T) for x in b.args):
+        alts = []
+        for x in b.args:
+            f = mk_field(x, name, adt)
+            if f not in alts:
+                alts.append(f)
+        return alts[0] if len(alts) == 1 else T("phi", None, alts)
+    if b.op == "variant" and b.args and b.args[0].op == "phi":
+        # ((phi of Option-like aggregates) as Some).0 : only the alternatives of that variant contribute
+        alts = []
+        for x in b.args[0].args:
+            if isinstance(x, T) and x.op == "agg" and str(x.name).endswith("::" + str(b.name)):
+                f = mk_field(x, name, adt)
+                if f not in alts:
+                    alts.append(f)
+        if alts:
+            return alts[0] if len(alts) == 1 else T("phi", None, alts)
     if b.op == "agg":
         for f in b.args:
             if isinstance(f, T) and f.op == "fld" and f.name == name:
